@@ -1,13 +1,19 @@
 (* C44 — Sharded query execution returns the unsharded result.
-   Stage reached (partial): (1) the shard matcher partitions the series, for every hash
-   function; (2) the analyzer's answer is compatible with every grouping construct of the
-   query, for every query AST. The remaining stage — a PromQL semantics and
-     forall e series n, analyze e shardable ->
-       merge (map (fun i => eval e (series of shard i)) [0..n)) = eval e series
-   — is NOT proved here (statement kept; DESIGN.md §4 C44_sound). *)
-From Coq Require Import ZArith NArith List Bool.
+   Proved: (1) the shard matcher partitions the series, for every hash function;
+   (2) the analyzer's answer is compatible with every grouping construct, for every query AST;
+   (3) for the mini-PromQL with a denotational semantics in Model/C44.v — vector selectors with
+   = / != matchers and sum / count / min / max aggregations with by / without, nested to any
+   depth — C44_sound: whenever the analyzer says shardable (and the metric name is treated as
+   below), evaluating the query on every shard and concatenating the results gives the
+   unsharded result up to order, for every hash function, shard count and data set.
+   Refuted: without(...) aggregations drop the metric name although the analyzer does not
+   count __name__ among their labels; with series of two metric names the sharded result
+   differs (C44_without_drops_name_refuted; reproduced on the real engine: corpus/C44).
+   partial: binary operations, functions and the other aggregations are outside the
+   semantics; for them only (1) and (2) are proved. *)
+From Coq Require Import ZArith NArith List Bool Permutation.
 Import ListNotations.
-From Verif Require Import Lib.Corr Gen.C44 Model.C44 Proofs.C44.
+From Verif Require Import Lib.Corr Gen.C44 Model.C44 Proofs.C44 Proofs.C44_sound.
 
 (* Every series belongs to exactly one shard: for any hash H, any sharding label set (by or
    without), any n >= 1 and any label list, exactly one index below n matches. *)
@@ -52,6 +58,61 @@ Theorem C44_analyze_pred : forall e by_ S, analyze e = St by_ S ->
 Proof. exact analyze_pred. Qed.
 Print Assumptions C44_analyze_pred.
 
+(* ---- stage 2: semantics and soundness for selector + aggregation programs ---- *)
+
+(* key lemma: the result series of e computed on shard i are exactly the result series of e on
+   all data that belong to shard i (as lists, not only as sets) *)
+Theorem C44_shard_commutes : forall (H : str -> N) by_ set n e, sound_for by_ set e = true -> forall D i,
+  qeval e (filter (in_shard H by_ set n i) D) = filter (in_shard H by_ set n i) (qeval e D).
+Proof. exact shard_commutes. Qed.
+Print Assumptions C44_shard_commutes.
+
+(* C44_sound for selector + aggregation trees: if the analyzer (on the query as it sees it)
+   answers "shard by / without set", and the metric name is on the right side of the sharding
+   set (never a by-sharding label when the query has a without-aggregation; always a
+   without-sharding label), then the concatenated per-shard results are a permutation of the
+   unsharded result — for every hash, every n >= 1, every data set *)
+Theorem C44_sound_selectors_aggregations : forall (H : str -> N) n e D by_ set, (0 < n)%N ->
+  analyze (erase e) = St by_ set -> name_ok by_ set e = true ->
+  Permutation (sharded H by_ set n e D) (qeval e D).
+Proof. exact sound. Qed.
+Print Assumptions C44_sound_selectors_aggregations.
+
+Theorem C44_sound_pred : forall (H : str -> N) n e D by_ set tbl, (0 < n)%N ->
+  analyze (erase e) = St by_ set -> name_ok by_ set e = true ->
+  pred_ok (CEval e D n by_ set tbl (qeval e D)
+             (map (fun i => qeval e (filter (in_shard H by_ set n (N.of_nat i)) D)) (seq 0 (N.to_nat n)))) = true.
+Proof. exact sound_pred. Qed.
+Print Assumptions C44_sound_pred.
+
+(* the analyzer's guarantee is enough except for the metric name *)
+Theorem C44_analyzer_gives_sound_for : forall e by_ set,
+  compatible (scopes (erase e)) by_ set = true -> name_ok by_ set e = true -> sound_for by_ set e = true.
+Proof. exact analyzer_sound_for. Qed.
+Print Assumptions C44_analyzer_gives_sound_for.
+
+(* sum without (a) ({job="j"}) over m1{a="x",job="j"} = 1 and m2{a="x",job="j"} = 2: the analyzer
+   says "shardable without [a]"; the two series differ in __name__, which the matcher hashes, so
+   they can sit on different shards, and each shard returns its own {job="j"} sample *)
+Definition w_job : str := [106;111;98]%N. Definition w_j : str := [106%N].
+Definition w_q : qexpr := QAgg ASum true [[97%N]] (QSel [MEq w_job w_j]).
+Definition w_D : vector :=
+  [([(s_name, [109;49]%N); ([97%N], [120%N]); (w_job, w_j)], 1%Z);
+   ([(s_name, [109;50]%N); ([97%N], [120%N]); (w_job, w_j)], 2%Z)].
+Definition w_H (b : str) : N := fold_right N.add 0%N b.
+
+Theorem C44_without_drops_name_refuted :
+  analyze (erase w_q) = St false [[97%N]] /\ shardable (analyze (erase w_q)) = true
+  /\ qeval w_q w_D = [([(w_job, w_j)], 3%Z)]
+  /\ sharded w_H false [[97%N]] 2 w_q w_D = [([(w_job, w_j)], 1%Z); ([(w_job, w_j)], 2%Z)]
+  /\ ~ Permutation (sharded w_H false [[97%N]] 2 w_q w_D) (qeval w_q w_D).
+Proof.
+  split; [vm_compute; reflexivity|]. split; [vm_compute; reflexivity|].
+  split; [vm_compute; reflexivity|]. split; [vm_compute; reflexivity|].
+  intro P. apply Permutation_length in P. vm_compute in P. discriminate.
+Qed.
+Print Assumptions C44_without_drops_name_refuted.
+
 (* ---- non-vacuity ---- *)
 Definition la : str := [97%N]. Definition lb : str := [98%N]. Definition lpod : str := [112;111;100]%N.
 
@@ -74,3 +135,13 @@ Example C44_partition_nonvacuous :
   shard_of H true [la] 3 [(la, [120%N]); (lb, [121%N])] = 1%N
   /\ map (fun i => matches H true [la] 3 (N.of_nat i) [(la, [120%N]); (lb, [121%N])]) (seq 0 3) = [false; true; false].
 Proof. vm_compute. split; reflexivity. Qed.
+
+(* sum by (a) (count by (a, pod) ({job="j", pod!="y"})): hypotheses of C44_sound hold *)
+Example C44_sound_nonvacuous :
+  let e := QAgg ASum false [la] (QAgg ACount false [la; lpod] (QSel [MEq w_job w_j; MNeq lpod [121%N]])) in
+  analyze (erase e) = St true [la] /\ name_ok true [la] e = true /\ sound_for true [la] e = true
+  /\ qeval e [([(s_name, [109;49]%N); (la, [120%N]); (w_job, w_j); (lpod, [120%N])], 5%Z);
+              ([(s_name, [109;50]%N); (la, [120%N]); (w_job, w_j); (lpod, [122%N])], 7%Z);
+              ([(s_name, [109;49]%N); (la, [121%N]); (w_job, w_j)], 1%Z)]
+     = [([(la, [120%N])], 2%Z); ([(la, [121%N])], 1%Z)].
+Proof. vm_compute. repeat split; reflexivity. Qed.
